@@ -49,8 +49,8 @@ PROPS = {
                  "spacing rounding spec, bucket containment of the sqrt-price search; model tied by differential run. Round-trip totality (sp(t) maps back to t) is tested (sweep), not proved.",
  },
  "C18": {
-  "modules": ["OsmoVerif.Props.C18"],
-  "min_theorems": 9,
+  "modules": ["OsmoVerif.Props.C18", "OsmoVerif.Props.TieGenMint"],
+  "min_theorems": 24,
   "fingerprints": [],
   "engines": [{"name": "mint", "kind": "app", "n": {"quick": 3000, "thorough": 60000}, "shards": {"quick": 4, "thorough": 16}}],
   "rule": "histories = random valid parameter set (proportions summing to 1 with 1..18 decimals, reduction factor/period, start epoch, 0..4 weighted "
